@@ -125,7 +125,7 @@ def gen_plan(seed, tier="quick"):
         "sched_seed": r.randrange(1 << 30),
         "io_mode": r.random() < 0.4,          # pre-emption decisions only around lines that touch files / store into arrays
         # hold one worker at one of its file-touching lines until all others have finished
-        "delay": ({"tf": r.random(), "ef": r.random(), "sf": r.random(), "occ": r.choice(["first", "first", "last", "any"]),
+        "delay": ({"tf": r.random(), "ef": r.random(), "sf": r.random(), "sf2": r.random(), "occ": r.choice(["first", "first", "last", "any"]),
                    "where": r.choice(["end", "start", "any", "site", "site", "site"])} if r.random() < 0.4 else None),
         "trace": None,
     }
@@ -297,9 +297,13 @@ def sweep_plans(tier, verif_seed):
         stride = p["nbatch"] - 2 * T
         p["ns"] = min(40000, max(1500, p["nproc"] * r.choice([1, 2, 2, 3]) * stride + r.randrange(0, stride)))
         p["saturate"] = [[max(0, min(p["ns"] - 2, (p["ns"] // p["nproc"]) - 10)), min(p["ns"], (p["ns"] // p["nproc"]) + 40), 0.5]] if r.random() < 0.7 else []
-        cand = sched.hold_candidates(_count_io(p))
+        sites_ = _count_io(p)
+        cand = sched.hold_candidates(sites_)
         if tier == "quick":
-            cand = sorted(r.sample(cand, min(len(cand), 24)))
+            # the quick tier sweeps the task body's own sites (every one of them, first and last occurrence), capped
+            cand = sched.hold_candidates(sites_, body_only=True)
+            if len(cand) > 90:
+                cand = sorted(r.sample(cand, 90))
         for t, e in cand:
             yield dict(p, delay={"where": "abs", "task": t, "at": e}, sweep_of=b)
 
